@@ -5,6 +5,12 @@ ROOT = os.path.dirname(os.path.dirname(os.path.abspath(__file__)))
 ALL = [f"C{i:02d}" for i in range(1, 21)]
 # id -> (category, technique, level text, level note, design ref)
 CHECKS = {
+ "C01": ("exploration", "proptest generation of canonical values from an independent layout table; round-trip oracle on the real types (decode-first bridge)",
+         "For all 55 shipped packet/TLV types, thousands of generated canonical values per type (every optional present/absent, vec lengths, boundary-biased numbers and lengths, whole CP437/hex alphabets, APDU bodies pumped onto the 254/255 and TLV 127/128, 255/256 switch points) are pushed through the repository's serialiser and deserialiser and compared with PartialEq, no bytes left.",
+         "Trusted: reference codec + layout table define the canonical domain (DESIGN.md 5.1). Values enter the real types through the repo's decoder; C03 verifies on the same cases that this decoder yields exactly the intended value.", "7/C01"),
+ "C03": ("exploration", "proptest generation + differential against a reference codec interpreting an independent layout table (both directions), plus captured blobs",
+         "Bytes assembled by an independent reference codec from a hand-written layout table must decode into exactly the named fields (compared through Debug) with nothing left, and the repository must re-encode them to the identical bytes, for generated canonical values of all 55 types; the 24 captured packets are read by both decoders.",
+         "Trusted: harness/src/layouts.tbl (transcribed from the ZVT / Feig specification, cross-checked against the captured blobs) and harness/src/refc.rs. A layout error shared by table and code is invisible.", "7/C03"),
  "C16": ("exploration", "exhaustive enumeration against independent reference length functions (property-based, no sampling)",
          "Every representable length of every prefix style (Tlv/Adpu 0..65535, Llv 0..99, Lllv 0..999, Fixed<1..17>) with trailing data, and every byte string of length <= 3 through each parser, is compared with independently written reference prefix functions. The space the property quantifies over is finite and is enumerated completely, so exploration here is exhaustive.",
          "Trusted: the reference prefix functions in harness/src/props/c16.rs (BER-TLV / ZVT APDU / LLVAR rules). Lengths above a style's range are outside the property.", "7/C16"),
